@@ -499,6 +499,9 @@ impl SlabRouter {
             .map_err(|e| SlabRouterError::WalError(format!("Failed to log put: {e}")))?;
         }
 
+        #[cfg(feature = "neumann_verif")]
+        crate::verif_hooks::point("put_durable:after_log");
+
         // Apply to in-memory state
         self.put(key, value)
     }
@@ -541,6 +544,9 @@ impl SlabRouter {
             .map_err(|e| SlabRouterError::WalError(format!("Failed to log delete: {e}")))?;
         }
 
+        #[cfg(feature = "neumann_verif")]
+        crate::verif_hooks::point("delete_durable:after_log");
+
         // Apply to in-memory state
         self.delete(key)
     }
@@ -557,6 +563,9 @@ impl SlabRouter {
         self.save_to_file(snapshot_path)
             .map_err(|e| SlabRouterError::WalError(format!("Failed to save snapshot: {e}")))?;
 
+        #[cfg(feature = "neumann_verif")]
+        crate::verif_hooks::point("checkpoint:after_snapshot");
+
         let checkpoint_id = self.checkpoint_counter.fetch_add(1, Ordering::SeqCst);
 
         // Log checkpoint marker and truncate WAL
@@ -569,9 +578,15 @@ impl SlabRouter {
             wal.append(&entry)
                 .map_err(|e| SlabRouterError::WalError(format!("Failed to log checkpoint: {e}")))?;
 
+            #[cfg(feature = "neumann_verif")]
+            crate::verif_hooks::point("checkpoint:after_marker");
+
             // Truncate WAL after successful checkpoint
             wal.truncate()
                 .map_err(|e| SlabRouterError::WalError(format!("Failed to truncate WAL: {e}")))?;
+
+            #[cfg(feature = "neumann_verif")]
+            crate::verif_hooks::point("checkpoint:after_truncate");
         }
 
         Ok(checkpoint_id)
